@@ -16,7 +16,7 @@
      error terms, leakage terms, systems, connectivity matrix or not, vl_t_terms), a standard by [addargs]
      (argument check passes or not, number of m vectors, the parameter indices of its S matrix, the
      (system, number of terms) shape of the equations it generates), set_m_error by [merr_arg], solve by the
-     number of temporary requests of the numeric kernels and whether the TRL shortcut applies;
+     number of temporary requests of the numeric kernels, whether the TRL shortcut applies and whether a kernel gives up;
    - blocks that are only ever released together are kept as a list in allocation order (measurement:
      struct, vnm_m_matrix, the m vectors, vnm_s_matrix, the connectivity matrix; equation: struct, terms;
      calibration: struct, frequency vector, term vector, terms; the three parts of the solve state); an
@@ -302,7 +302,9 @@ Inductive merr_arg :=
   | MEBadCount                  (* frequencies < 1: refused before anything else *)
   | MEClear                     (* both sigma vectors NULL *)
   | MEInvalid                   (* any later argument check fails *)
-  | MESet (splines : nat).      (* 0: one frequency or the calibration's; 1: spline of sigma_nf; 2: of both *)
+  | MESet (splines : nat)       (* 0: one frequency or the calibration's; 1: spline of sigma_nf; 2: of both *)
+  | MESplineInvalid (before : nat).  (* as MESet, but after [before] splines _vnacommon_spline_calc refuses the frequencies (a gap below
+                                     MIN_DX): -1 / EINVAL after its five temporaries were allocated and released *)
 
 (* _vnacommon_spline_calc: five temporaries, all released *)
 Definition spline_calc : M bool :=
@@ -321,6 +323,12 @@ Definition set_m_error (nv : nvariant) (v : vnew) (a : merr_arg) : M (vnew * out
       free (vn_merr v) ;;;
       ret (match nv with NClearDangling => v | _ => set_merr v None end, Done)
   | MEInvalid => ret (v, Err EINVAL)
+  | MESplineInvalid n =>
+      if negb (vn_fvalid v) then ret (v, Err EINVAL)
+      else
+        ok <- spline_calcs n ;;
+        if negb ok then ret (v, Err ENOMEM)
+        else ok2 <- spline_calc ;; ret (v, if ok2 then Err EINVAL else Err ENOMEM)
   | MESet n =>
       if negb (vn_fvalid v) then ret (v, Err EINVAL)
       else
@@ -395,11 +403,32 @@ Fixpoint write_back (freqs : nat) (ps : list prm) (unk : list nat) (pv : list bl
       end
   end.
 
+(* the request lists of _vnacal_new_solve_init (after the msv vector) and of _vnacal_calibration_alloc *)
+Definition init_m_sizes (v : vnew) : list Z := flat_map (fun _ => msv_sizes v) (seq 0 (vn_nmeas v)).
+Definition init_l_sizes (c : ncfg) : list Z :=
+  match c_leak c with
+  | Some n => (Z.of_nat (c_mcells c) * 8) :: repeat 24 n
+  | None => []
+  end.
+Definition init_p_sizes (v : vnew) : list Z :=
+  match vn_unk v with
+  | [] => []
+  | _ => (Z.of_nat (length (vn_unk v)) * 8) :: repeat (Z.of_nat (c_freqs (vn_cfg v)) * 16) (length (vn_unk v))
+  end.
+Definition cal_sizes (c : ncfg) : list Z :=
+  [96; Z.of_nat (c_freqs c) * 8; Z.of_nat (c_eterms c) * 8] ++ repeat (Z.of_nat (c_freqs c) * 16) (c_eterms c).
+(* how many requests each of the two makes when nothing fails (compared with the library one by one by the tie) *)
+Definition solve_init_requests (v : vnew) : nat :=
+  S (length (init_m_sizes v) + length (init_l_sizes (vn_cfg v)) + length (init_p_sizes v)).
+Definition cal_requests (c : ncfg) : nat := length (cal_sizes c).
+
 Definition tmps (n : nat) : list Z := repeat 8 n.
 Definition ocons (o : option block_id) (l : list block_id) : list block_id :=
   match o with Some x => x :: l | None => l end.
 
-Definition solve (nv : nvariant) (v : vnew) (ps : list prm) (body : nat) (trl : bool) : M (vnew * list prm * outcome) :=
+(* [fails]: a numeric kernel gives up after its [body] requests (singular system, p-value below the limit, convert_ue14_to_e12,
+   no convergence): goto out with everything released, -1 with a math error (outcome class Err EINVAL here) *)
+Definition solve (nv : nvariant) (v : vnew) (ps : list prm) (body : nat) (trl : bool) (fails : bool) : M (vnew * list prm * outcome) :=
   if negb (vn_fvalid v) then ret (v, ps, Err EINVAL)
   else
     let c := vn_cfg v in
@@ -408,27 +437,21 @@ Definition solve (nv : nvariant) (v : vnew) (ps : list prm) (body : nat) (trl : 
     (let (ok0, sm0) := r in
      if negb ok0 then ret (v, ps, Err ENOMEM)
      else
-       r1 <- allocl (flat_map (fun _ => msv_sizes v) (seq 0 (vn_nmeas v))) sm0 ;;
+       r1 <- allocl (init_m_sizes v) sm0 ;;
        (let (ok1, sm) := r1 in
         if negb ok1 then frees (rev sm) ;;; ret (v, ps, Err ENOMEM)
         else
-          r2 <- allocl (match c_leak c with
-                        | Some n => (Z.of_nat (c_mcells c) * 8) :: repeat 24 n
-                        | None => [] end) [] ;;
+          r2 <- allocl (init_l_sizes c) [] ;;
           (let (ok2, sl) := r2 in
            if negb ok2 then frees (rev sl) ;;; frees (rev sm) ;;; ret (v, ps, Err ENOMEM)
            else
-             r3 <- allocl (match vn_unk v with
-                           | [] => []
-                           | _ => (Z.of_nat (length (vn_unk v)) * 8) :: repeat (Z.of_nat (c_freqs c) * 16) (length (vn_unk v))
-                           end) [] ;;
+             r3 <- allocl (init_p_sizes v) [] ;;
              (let (ok3, sp) := r3 in
               let vs_free (sp' : list block_id) := frees (rev sp') ;;; frees (rev sl) ;;; frees (rev sm) in
               if negb ok3 then vs_free sp ;;; ret (v, ps, Err ENOMEM)
               else
                 (* _vnacal_calibration_alloc *)
-                r4 <- allocl ([96; Z.of_nat (c_freqs c) * 8; Z.of_nat (c_eterms c) * 8] ++
-                              repeat (Z.of_nat (c_freqs c) * 16) (c_eterms c)) [] ;;
+                r4 <- allocl (cal_sizes c) [] ;;
                 (let (ok4, cal) := r4 in
                  if negb ok4 then frees (rev cal) ;;; vs_free sp ;;; ret (v, ps, Err ENOMEM)
                  else
@@ -441,6 +464,7 @@ Definition solve (nv : nvariant) (v : vnew) (ps : list prm) (body : nat) (trl : 
                       (let (ok6, tm) := r6 in
                        frees tm ;;;
                        if negb ok6 then frees tb ;;; frees (rev cal) ;;; vs_free sp ;;; ret (v, ps, Err ENOMEM)
+                       else if fails then frees tb ;;; frees (rev cal) ;;; vs_free sp ;;; ret (v, ps, Err EINVAL)
                        else
                          w <- write_back (c_freqs c) ps (vn_unk v) (tl sp) ;;
                          (let '(okw, ps', pv') := w in
@@ -457,7 +481,7 @@ Inductive wop :=
   | WSetF (h : nat)                               (* vnacal_new_set_frequency_vector (no request) *)
   | WAdd (h : nat) (a : addargs)
   | WMErr (h : nat) (a : merr_arg)
-  | WSolve (h : nat) (body : nat) (trl : bool)
+  | WSolve (h : nat) (body : nat) (trl : bool) (fails : bool)
   | WFree (h : nat).
 
 Definition handle (w : world) (h : nat) : option vnew := nth h (w_new w) None.
@@ -487,10 +511,10 @@ Definition wstep (nv : nvariant) (w : world) (op : wop) : M (world * outcome) :=
       | None => ret (w, Err EINVAL)
       | Some v => r <- set_m_error nv v a ;; (let (v', out) := r in ret (put w h (Some v') (w_prm w), out))
       end
-  | WSolve h body trl =>
+  | WSolve h body trl fails =>
       match handle w h with
       | None => ret (w, Err EINVAL)
-      | Some v => r <- solve nv v (w_prm w) body trl ;; (let '(v', ps, out) := r in ret (put w h (Some v') ps, out))
+      | Some v => r <- solve nv v (w_prm w) body trl fails ;; (let '(v', ps, out) := r in ret (put w h (Some v') ps, out))
       end
   | WFree h =>
       match handle w h with
